@@ -117,6 +117,9 @@ def check(program: Program, run: Run) -> None:
     vals = None
     if zipcall is not None and len(zipcall.iter.args) == 3 and isinstance(zipcall.iter.args[2], (ast.List, ast.Tuple)):
         vals = [ast.unparse(x) for x in zipcall.iter.args[2].elts]
+    if vals is None:
+        raise AnalysisError("unsupported construct: Interval.__init__ no longer stores its components in a `for unit, label, value in zip(units, labels, [...])` loop; "
+                            "the bookkeeping of largest / smallest / sign cannot be judged on another shape (it depends on which components are non-zero)")
     ok = vals == units
     run.ob("C18/R1 constructor value list is in unit order", "Interval.__init__", ok, detail=f"{vals}", where=init.loc())
     if not ok:
